@@ -341,13 +341,15 @@ def run_toy(ctx):
         kk = [w * w / 9.81 for w in sp["omega"]]
         pts = " ".join("%s %s" % (C.fx(g), field_tok([[sc * v for v in row] for row in sp["E"]]))
                        for g, sc in zip(bm["guesses"], bm["scales"]))
-        lines.append("toypoints %d %s %s %s %s %s %s %s %s %s %s %s %s %s %d %s" % (
-            bm["kind"], C.fx(sp["amp"]), C.fx(bm["a"]), C.fx(bm["b"]), C.fx(0.0), C.fx(0.0),
-            "T" if bm["diriter"] else "F", C.fx(bm["dc"]), C.fx(sp["sdir"]), C.flist(kk), C.flist(sp["theta"]),
-            C.flist(sp["df"]), C.flist(sp["dth"]), field_tok(zeroT), bm["n"], pts))
+        for dcv, sdv in ((bm["dc"], sp["sdir"]), (bm["dc"] * (1 + 1e-13), sp["sdir"] + 1e-10)):
+            lines.append("toypoints %d %s %s %s %s %s %s %s %s %s %s %s %s %s %d %s" % (
+                bm["kind"], C.fx(sp["amp"]), C.fx(bm["a"]), C.fx(bm["b"]), C.fx(0.0), C.fx(0.0),
+                "T" if bm["diriter"] else "F", C.fx(dcv), C.fx(sdv), C.flist(kk), C.flist(sp["theta"]),
+                C.flist(sp["df"]), C.flist(sp["dth"]), field_tok(zeroT), bm["n"], pts))
     mod = ctx.model(lines)
     mod_pert = mod[1:2 * ncase:2]
-    mod = mod[0:2 * ncase:2] + mod[2 * ncase:]
+    modb_pert = mod[2 * ncase + 1::2]
+    mod = mod[0:2 * ncase:2] + mod[2 * ncase::2]
     for meta, im, mo, mp in zip(metas, impl[:ncase], mod[:ncase], mod_pert):
         rep = dict(meta, op="_u10_from_bulk_rate_point with analytic source terms", impl=im, model=" ".join(mo),
                    grid=specs[meta["spec"]]["f"], directions=specs[meta["spec"]]["th"])
@@ -375,7 +377,7 @@ def run_toy(ctx):
             continue
         if (di != di) != (dm != dm) or (di == di and not (abs((di - dm + 180) % 360 - 180) <= 1e-6)):
             ctx.disagree("_u10_from_bulk_rate_point returns direction %r, model %r" % (di, dm), rep)
-    for bm, im, mo in zip(bmetas, impl[ncase:], mod[ncase:]):
+    for bm, im, mo, mp in zip(bmetas, impl[ncase:], mod[ncase:], modb_pert):
         rep = dict(bm, op="_u10_from_spectra with analytic source terms", impl=im, model=" ".join(mo))
         ctx.count(["toybatch"] + [bm[k] for k in sorted(bm)], True)
         ctx.tally("toy:batch%d" % bm["n"])
@@ -387,6 +389,10 @@ def run_toy(ctx):
             um, dm = C.unfx(mo[2 * p]), C.unfx(mo[2 * p + 1])
             if bm["scales"][p] == 0.0 and ui != 0.0:
                 ctx.oracle_fail("zero dissipation at batch member %d but U10 = %r" % (p, ui), rep)
+            up = C.unfx(mp[2 * p])
+            if (up != up) != (um != um) or (um == um and not C.close(up, um, 1e-8, 1e-10)):
+                ctx.tally("toy:ill-conditioned(skipped)")
+                continue
             if (ui != ui) != (um != um) or (ui == ui and not C.close(ui, um, 1e-7, 1e-9)):
                 ctx.disagree("_u10_from_spectra member %d: U10 %r, model %r" % (p, ui, um), rep)
                 break
